@@ -5,6 +5,7 @@ import Rbql.Proofs.RunSelect
 import Rbql.Proofs.UpdateSpec
 import Rbql.Proofs.ReaderPyLines
 import Rbql.Model.Writer
+import Rbql.Proofs.RfcAndWarnings
 namespace Rbql
 
 /-- If every record before `r` evaluates fine and `r` (the record number `|A1| + 1`) fails with `e`
@@ -112,5 +113,76 @@ theorem C14_none_warning_iff (c : WCfg) (st : WState) (fields : List (Option Str
     by_cases hlen : 1 < fields.length
     · rw [if_pos hlen] at hgo; cases hgo
     · rw [if_neg hlen] at hgo; cases hgo; rfl
+
+/-- list-valued cells (`normalize_fields` recursion): the flag is set iff some cell is None OR some list
+cell contains a None — a None inside a list is written as an empty item and must be reported too -/
+theorem C14_none_warning_iff_cells (c : WCfg) (st : WState) (cells : List Cell) (st' : WState)
+    (hw : writeRecCells c st cells = .ok st') : st'.noneSeen = (st.noneSeen || cells.any Cell.hasNone) := by
+  unfold writeRecCells at hw
+  have h := C14_none_warning_iff c _ _ st' hw
+  rw [h]
+  have hcell : ∀ x : Cell, x.hasNone = (x.nestedNone || (x.flat c.delim).isNone) := by
+    intro x; cases x <;> simp [Cell.hasNone, Cell.nestedNone, Cell.flat]
+  have hany : ∀ l : List Cell, l.any Cell.hasNone =
+      (l.any Cell.nestedNone || (l.map (Cell.flat c.delim)).any (fun x => x.isNone)) := by
+    intro l
+    induction l with
+    | nil => rfl
+    | cons x xs ih =>
+      simp only [List.any_cons, List.map_cons, ih, hcell x]
+      cases x.nestedNone <;> cases (x.flat c.delim).isNone <;> simp
+  simp only [hany cells, Bool.or_assoc]
+
+/-- non-vacuity: `['a', ['x', None]]` sets the flag, `['a', ['x', 'y']]` does not -/
+example : (writeRecCells { delim := [','], policy := .quoted } {} [.str ['a'], .list [some ['x'], none]]).toOption.map (·.noneSeen) = some true ∧
+    (writeRecCells { delim := [','], policy := .quoted } {} [.str ['a'], .list [some ['x'], some ['y']]]).toOption.map (·.noneSeen) = some false := by
+  decide
+
+/-! ### reader warnings: each appears iff its anomaly occurred (Python reader machine) -/
+
+/-- the BOM warning is reported iff the reader's BOM flag is set … -/
+theorem C14_bom_warning_iff_flag (s : RState) : ReadWarn.bom ∈ readerWarnings s ↔ s.bom = true :=
+  bom_warning_iff s
+
+/-- … and one step of the line machine sets the flag iff this is the first physical line, an encoding
+with a BOM is configured and the line really starts with that BOM (which is then stripped) -/
+theorem C14_bom_flag_iff_first_line_has_bom (c : RCfg) (s : RState) (h : RInv c s) (row : Str) (s' : RState)
+    (hstep : getRowSimple c s = (some row, s')) :
+    ∃ line rest, nextLine (pending s) = some (line, rest) ∧
+      (s'.bom = true ↔
+        (s.bom = true ∨ (s.nl = 0 ∧ c.enc ≠ .none ∧ ∃ t, line = bomOf c.enc ++ t))) :=
+  bom_flag_iff_starts_with_bom c s h row s' hstep
+
+/-- the defective-line warning names line `l` iff `l` is the recorded first defective line … -/
+theorem C14_defective_warning_iff_flag (s : RState) (l : Nat) :
+    ReadWarn.defective l ∈ readerWarnings s ↔ s.firstDefective = some l :=
+  defective_warning_iff s l
+
+/-- … and (policies other than quoted_rfc) reading one record records a first defective line iff none
+was recorded before and the splitter raised its warning on exactly this record's line; otherwise the
+recorded line is unchanged: the warning names the FIRST defective line and only a defective one -/
+theorem C14_defective_line_iff (c : RCfg) (s : RState) (hinv : RInv c s) (hp : c.policy ≠ .quotedRfc)
+    (record : List Str) (s' : RState) (h : readRecord c s = .ok (some record, s')) :
+    ∃ line s1, nextDataLine c (remaining s + 1) s = (some line, s1) ∧
+      record = (smartSplit c.delim c.policy false line).1 ∧ s'.nl = s1.nl ∧ s'.nr = s.nr + 1 ∧
+      ((s.firstDefective = none ∧ s'.firstDefective = some s'.nl) ↔
+        (s.firstDefective = none ∧ (smartSplit c.delim c.policy false line).2 = true)) ∧
+      (¬ (s.firstDefective = none ∧ (smartSplit c.delim c.policy false line).2 = true) →
+        s'.firstDefective = s.firstDefective) :=
+  defective_line_iff c s hinv hp record s' h
+
+/-- quoted_rfc: a malformed record is an I/O error naming its record number and line, raised iff the
+splitter's warning fired on that record (never a silent acceptance, never a spurious error) -/
+theorem C14_rfc_malformed_is_io_error (c : RCfg) (s : RState) (hinv : RInv c s) (hp : c.policy = .quotedRfc)
+    (nr nl : Nat) :
+    readRecord c s = .error (.rfcQuote nr nl) ↔
+      ∃ line s1, nextDataLine c (remaining s + 1) s = (some line, s1) ∧ s.firstDefective = none ∧
+        (smartSplit c.delim .quotedRfc false line).2 = true ∧ nr = s.nr + 1 ∧ nl = s1.nl :=
+  rfc_malformed_is_io_error c s hinv hp nr nl
+
+/-- policies other than quoted_rfc never fail in the reader -/
+theorem C14_non_rfc_reader_never_errors (c : RCfg) (s : RState) (hp : c.policy ≠ .quotedRfc) :
+    ∃ r, readRecord c s = .ok r :=
+  readRecord_ok_of_not_rfc c s hp
 
 end Rbql
